@@ -41,7 +41,7 @@ PROPS = {
     },
     "C10": {
         "level": "proof",
-        "units": ["cproof", "sproof", "range", "transcripts", "za_proofs_new", "za_pay_new", "lemmas_range_complete", "cor_cproof", "cor_sproof", "lemmas_schnorr", "lemmas_range_ledger", "lemmas_pedersen", "lemmas_ps"],
+        "units": ["cproof", "sproof", "range", "transcripts", "za_proofs_new", "za_pay_new", "lemmas_range_complete", "cor_cproof", "cor_sproof", "lemmas_schnorr", "lemmas_range_ledger", "lemmas_pedersen", "lemmas_ps", "pedersen"],
         "kani": ["commit_scalars_respected_n1", "commit_scalars_respected_n2", "commit_scalars_respected_n3", "range_digits_exact"],
         "assumptions": [
             PER_INST,
@@ -161,7 +161,7 @@ PROPS = {
     "C15": {
         "level": "proof",
         "units": ["za_nonce_revlock", "validators"],
-        "kani": ["balance_decode_invariant", "g1_codec_validates", "g2_codec_validates", "scalar_codec_validates", "channel_id_from_str_exact"],
+        "kani": ["balance_decode_invariant", "g1_codec_validates", "g2_codec_validates", "scalar_codec_validates", "channel_id_from_str_exact", "array_visitor_total_n1", "array_visitor_total_n5", "boxed_array_visitor_total_n1"],
         "scans": ["serde_routing", "nonce_sites", "revocation_pair_sites"],
         "assumptions": [
             "bls12_381 decoders accept canonical, on-curve, in-subgroup encodings only (documented contract of from_compressed/from_bytes)",
@@ -188,7 +188,7 @@ PROPS = {
     },
     "C18": {
         "level": "proof",
-        "units": ["za_nonce_revlock", "za_states", "cor_customer", "lemmas_ps", "pk_bytes", "za_chanid"],
+        "units": ["za_nonce_revlock", "za_states", "cor_customer", "lemmas_ps", "pk_bytes", "za_chanid", "za_merchant", "transcripts"],
         "scans": ["nonce_sites"],
         "assumptions": ["SHA3 collision resistance for 'the channel id changes' (the hashed string is PROVED to be the five inputs in order: slice of ChannelId::new + PublicKey::to_bytes; the five-chunk list determines each input given the fixed widths of the first three, flatten-injectivity is not mechanised); y_2 != 0 from key well-formedness (C19)", "the last statement of ChannelId::new (digest -> [u8; 32]) and ChannelId::to_scalar are contract-only (byte slicing); to_scalar has a bounded stand-in (thorough tier)"],
         "trusted_base": CRYPTO_AXIOMS,
